@@ -135,6 +135,7 @@ fn segments(pts: &[PathControlPoint]) -> Vec<(SplineType, Vec<PathControlPoint>)
 }
 
 pub fn check_shape(mode: GameMode, pts: &[PathControlPoint], bufs: &mut CurveBuffers, acc: &mut Acc) {
+    let _g = crate::engine::watch::guard("points", |s| s.push_str(&format!("{mode:?} {}", points_json(pts))));
     acc.evals += 1;
     acc.transitions += 1;
     let c = Curve::new(mode, pts, None, bufs);
